@@ -416,3 +416,403 @@ Proof.
               Hrest eq_refl Hat Hfuel) as H.
   unfold serve in H. rewrite K in H. unfold view in H. rewrite K in H. exact H.
 Qed.
+
+(* ---------- facts about the client loop against ANY server ---------- *)
+
+Section ClientFacts.
+  Variable serve : nat -> url -> response.
+  Variable resolve : url -> str -> option url.
+  Variable c : cfg.
+
+  Lemma handle_err rs e : handle c rs = inl e -> e <> ErrCallback.
+  Proof.
+    unfold handle. intro H.
+    destruct (negb (rs_status rs =? 200)); [injection H as <-; discriminate|].
+    destruct (match c_kind c with KReferrers => negb (rs_ctype_ok rs) | _ => false end);
+      [injection H as <-; discriminate|].
+    destruct (negb (body_fits c rs)); [injection H as <-; discriminate|].
+    destruct (c_kind c); try discriminate.
+    destruct (is_empty (c_at c)); try discriminate.
+    destruct (is_filter_applied (rs_fhdr rs) filterTypeArtifactType
+              || is_filter_applied (rs_fann rs) filterTypeArtifactType); discriminate.
+  Qed.
+
+  (* no page is delivered by a response whose document does not fit the limit *)
+  Lemma handle_ok_fits rs p :
+    handle c rs = inr p ->
+    rs_json_ok rs = true /\ (Z.of_N (rs_doc_len rs) <= eff_limit (c_limit c))%Z.
+  Proof.
+    unfold handle. intro H.
+    destruct (negb (rs_status rs =? 200)); [discriminate|].
+    destruct (match c_kind c with KReferrers => negb (rs_ctype_ok rs) | _ => false end); [discriminate|].
+    destruct (body_fits c rs) eqn:F; [|discriminate].
+    unfold body_fits in F. apply andb_true_iff in F as [F1 F2]. apply Z.leb_le in F2. auto.
+  Qed.
+
+  Lemma handle_oversize rs :
+    (eff_limit (c_limit c) < Z.of_N (rs_doc_len rs))%Z -> exists e, handle c rs = inl e.
+  Proof.
+    intro H. destruct (handle c rs) as [e|p] eqn:E; [now exists e|].
+    apply handle_ok_fits in E. lia.
+  Qed.
+
+  (* callback discipline: the k-th invocation failing ends the listing with that error,
+     nothing is delivered afterwards; otherwise the error is never ErrCallback *)
+  Fixpoint ok_calls (cb_fail : nat -> bool) (k : nat) (pages : list (list item)) (o : outcome) : Prop :=
+    match pages with
+    | [] => o <> ErrCallback
+    | _ :: ps => if cb_fail k then ps = [] /\ o = ErrCallback else ok_calls cb_fail (S k) ps o
+    end.
+
+  Lemma loop_calls cb_fail :
+    forall fuel i k u last,
+      let t := loop serve resolve cb_fail c fuel i k u last in
+      ok_calls cb_fail k (t_pages t) (t_out t).
+  Proof.
+    induction fuel as [|fuel IH]; intros i k u last; cbn [loop]; cbv zeta; [simpl; discriminate|].
+    destruct (handle c (serve i (mk_request c u last))) as [e|page] eqn:H.
+    { simpl. now apply handle_err in H. }
+    destruct (delivered c page) eqn:D; cbn [andb].
+    - destruct (cb_fail k) eqn:F.
+      + simpl. rewrite F. auto.
+      + destruct (parse_link (rs_link (serve i (mk_request c u last)))); try (simpl; rewrite F; discriminate).
+        destruct (resolve (mk_request c u last) t) as [u'|]; [|simpl; rewrite F; discriminate].
+        unfold prepend. cbn [t_pages t_out app ok_calls]. rewrite F. apply IH.
+    - destruct (parse_link (rs_link (serve i (mk_request c u last)))); try (simpl; discriminate).
+      destruct (resolve (mk_request c u last) t) as [u'|]; [|simpl; discriminate].
+      unfold prepend. cbn [t_pages t_out app]. apply IH.
+  Qed.
+
+  (* a failing callback truncates the undisturbed listing: same requests and pages up to
+     and including the failing invocation, nothing after it *)
+  Lemma loop_fail_prefix cb_fail :
+    forall fuel i k u last,
+      let t0 := loop serve resolve (fun _ => false) c fuel i k u last in
+      let t1 := loop serve resolve cb_fail c fuel i k u last in
+      (t1 = t0 /\ forall j, (j < length (t_pages t0))%nat -> cb_fail (k + j)%nat = false) \/
+      (exists n m, t_out t1 = ErrCallback /\
+                   t_reqs t1 = firstn (S n) (t_reqs t0) /\
+                   t_pages t1 = firstn (S m) (t_pages t0) /\
+                   (m < length (t_pages t0))%nat /\
+                   cb_fail (k + m)%nat = true /\
+                   forall j, (j < m)%nat -> cb_fail (k + j)%nat = false).
+  Proof.
+    induction fuel as [|fuel IH]; intros i k u last; cbn [loop]; cbv zeta.
+    { left. split; [reflexivity|]. simpl. intros j Hj. lia. }
+    set (rq := mk_request c u last).
+    destruct (handle c (serve i rq)) as [e|page] eqn:H.
+    { left. split; [reflexivity|]. simpl. intros j Hj. lia. }
+    destruct (delivered c page) eqn:D; cbn [andb].
+    - destruct (cb_fail k) eqn:F.
+      + right. exists 0%nat, 0%nat. cbn [t_out t_reqs t_pages]. rewrite Nat.add_0_r.
+        destruct (parse_link (rs_link (serve i rq))); try (simpl; repeat split; auto; lia).
+        destruct (resolve rq t) as [u'|]; simpl; repeat split; auto; lia.
+      + destruct (parse_link (rs_link (serve i rq)));
+          try (left; split; [reflexivity|]; simpl; intros j Hj; assert (j = 0)%nat by lia; subst j; now rewrite Nat.add_0_r).
+        destruct (resolve rq t) as [u'|];
+          [|left; split; [reflexivity|]; simpl; intros j Hj; assert (j = 0)%nat by lia; subst j; now rewrite Nat.add_0_r].
+        destruct (IH (S i) (S k) u' []) as [[E A]|(n & m & O & R & P & Lm & Fm & B)].
+        * left. rewrite E. split; [reflexivity|]. unfold prepend. cbn [t_pages app length].
+          intros [|j] Hj; [now rewrite Nat.add_0_r|].
+          rewrite Nat.add_succ_r. apply (A j). lia.
+        * right. exists (S n), (S m). unfold prepend. cbn [t_out t_reqs t_pages app].
+          rewrite R, P. repeat split; auto.
+          -- simpl. lia.
+          -- now rewrite Nat.add_succ_r.
+          -- intros [|j] Hj; [now rewrite Nat.add_0_r|]. rewrite Nat.add_succ_r. apply (B j). lia.
+    - destruct (parse_link (rs_link (serve i rq)));
+        try (left; split; [reflexivity|]; simpl; intros j Hj; lia).
+      destruct (resolve rq t) as [u'|]; [|left; split; [reflexivity|]; simpl; intros j Hj; lia].
+      destruct (IH (S i) k u' []) as [[E A]|(n & m & O & R & P & Lm & Fm & B)].
+      + left. rewrite E. split; [reflexivity|]. unfold prepend. cbn [t_pages app]. exact A.
+      + right. exists (S n), m. unfold prepend. cbn [t_out t_reqs t_pages app].
+        rewrite R, P. repeat split; auto.
+  Qed.
+
+  (* referrers: empty pages are never delivered *)
+  Lemma loop_no_empty_page cb_fail :
+    c_kind c = KReferrers ->
+    forall fuel i k u last,
+      Forall (fun p => p <> []) (t_pages (loop serve resolve cb_fail c fuel i k u last)).
+  Proof.
+    intro K. induction fuel as [|fuel IH]; intros i k u last; cbn [loop]; cbv zeta; [constructor|].
+    destruct (handle c (serve i (mk_request c u last))) as [e|page] eqn:H; [constructor|].
+    assert (P : delivered c page = true -> page <> []).
+    { unfold delivered. rewrite K. destruct page; [discriminate|discriminate]. }
+    destruct (delivered c page) eqn:D; cbn [andb].
+    - destruct (cb_fail k); [repeat constructor; auto|].
+      destruct (parse_link (rs_link (serve i (mk_request c u last)))); try (repeat constructor; auto).
+      destruct (resolve (mk_request c u last) t); [|repeat constructor; auto].
+      unfold prepend. cbn [t_pages app]. constructor; auto.
+    - destruct (parse_link (rs_link (serve i (mk_request c u last)))); try constructor.
+      destruct (resolve (mk_request c u last) t); [|constructor].
+      unfold prepend. cbn [t_pages app]. apply IH.
+  Qed.
+End ClientFacts.
+
+(* ---------- the limit ---------- *)
+
+Lemma eff_limit_pos n : (0 < eff_limit n)%Z.
+Proof. unfold eff_limit. destruct (n <=? 0)%Z eqn:E; [reflexivity|]. apply Z.leb_gt in E. exact E. Qed.
+
+Lemma eff_limit_default n : (n <= 0)%Z -> eff_limit n = defaultMaxMetadataBytes.
+Proof. intro H. unfold eff_limit. apply Z.leb_le in H. now rewrite H. Qed.
+
+Lemma eff_limit_set n : (0 < n)%Z -> eff_limit n = n.
+Proof. intro H. unfold eff_limit. apply Z.leb_gt in H. now rewrite H. Qed.
+
+Lemma max_read_le limit total :
+  (Z.of_N (max_read limit total) <= eff_limit limit)%Z /\ (max_read limit total <= total)%N.
+Proof. unfold max_read. pose proof (eff_limit_pos limit). lia. Qed.
+
+Lemma limit_size_spec limit size :
+  limit_size_rejects limit size = true <-> (eff_limit limit < size)%Z.
+Proof. unfold limit_size_rejects. apply Z.ltb_lt. Qed.
+
+Section Bytes.
+  Variable A : Type.
+  (* json.Decoder.Decode on the bytes the reader lets it see *)
+  Variable decode_stream : str -> option A.
+
+  (* d is a self-delimiting document with value v: decoding stops at its end, and no proper
+     prefix of it is accepted *)
+  Definition is_document (d : str) (v : A) : Prop :=
+    (forall tail, decode_stream (d ++ tail) = Some v) /\
+    (forall k, (k < length d)%nat -> decode_stream (firstn k d) = None).
+
+  (* io.LimitReader *)
+  Definition seen (limit : Z) (body : str) : str := firstn (Z.to_nat (eff_limit limit)) body.
+
+  Lemma limit_bytes d v pad limit :
+    is_document d v ->
+    (Z.of_nat (length (seen limit (d ++ pad))) <= eff_limit limit)%Z /\
+    decode_stream (seen limit (d ++ pad)) =
+      if (Z.of_nat (length d) <=? eff_limit limit)%Z then Some v else None.
+  Proof.
+    intros [D1 D2]. pose proof (eff_limit_pos limit) as Hp. unfold seen. split.
+    - pose proof (firstn_le_length (Z.to_nat (eff_limit limit)) (d ++ pad)). lia.
+    - rewrite firstn_app.
+      destruct (Z.of_nat (length d) <=? eff_limit limit)%Z eqn:E.
+      + apply Z.leb_le in E. rewrite firstn_all2 by lia. apply D1.
+      + apply Z.leb_gt in E.
+        replace (Z.to_nat (eff_limit limit) - length d)%nat with 0%nat by lia.
+        simpl. rewrite app_nil_r. apply D2. lia.
+  Qed.
+End Bytes.
+
+(* ---------- content/oci listTags ---------- *)
+
+Lemma str_ltb_irrefl x : str_ltb x x = false.
+Proof. induction x as [|c x IH]; simpl; [reflexivity|]. now rewrite N.ltb_irrefl. Qed.
+
+Lemma str_ltb_total x y : str_ltb x y = true \/ x = y \/ str_ltb y x = true.
+Proof.
+  revert y. induction x as [|c x IH]; intros [|d y]; simpl; auto.
+  destruct (N.ltb_spec c d); auto.
+  destruct (N.ltb_spec d c); auto.
+  assert (c = d) by lia. subst d.
+  destruct (IH y) as [H1|[H1|H1]]; auto. subst. auto.
+Qed.
+
+Lemma str_ltb_trans x y z : str_ltb x y = true -> str_ltb y z = true -> str_ltb x z = true.
+Proof.
+  revert y z. induction x as [|c x IH]; intros [|d y] [|e z]; simpl; try discriminate; auto.
+  destruct (N.ltb_spec c d), (N.ltb_spec d e), (N.ltb_spec c e); auto; try lia;
+    destruct (N.ltb_spec d c), (N.ltb_spec e d), (N.ltb_spec e c); try discriminate; try lia; eauto.
+Qed.
+
+Lemma str_ltb_asym x y : str_ltb x y = true -> str_ltb y x = false.
+Proof.
+  intro H. destruct (str_ltb y x) eqn:E; [|reflexivity].
+  pose proof (str_ltb_trans _ _ _ H E) as T. now rewrite str_ltb_irrefl in T.
+Qed.
+
+Definition sle (a b0 : str) : Prop := str_ltb b0 a = false.
+
+Lemma sle_antisym a b0 : sle a b0 -> sle b0 a -> a = b0.
+Proof. unfold sle. intros H1 H2. destruct (str_ltb_total a b0) as [H|[H|H]]; congruence. Qed.
+
+Lemma sle_trans a b0 c0 : sle a b0 -> sle b0 c0 -> sle a c0.
+Proof.
+  unfold sle. intros H1 H2. destruct (str_ltb c0 a) eqn:E; [|reflexivity].
+  destruct (str_ltb_total a b0) as [H|[H|H]]; try congruence.
+  - pose proof (str_ltb_trans _ _ _ E H). congruence.
+Qed.
+
+Lemma sinsert_perm x l : Permutation (sinsert x l) (x :: l).
+Proof.
+  induction l as [|y l IH]; simpl; [reflexivity|].
+  destruct (str_ltb y x); [|reflexivity].
+  rewrite IH. apply perm_swap.
+Qed.
+
+Lemma ssort_perm l : Permutation (ssort l) l.
+Proof.
+  induction l as [|x l IH]; simpl; [reflexivity|].
+  rewrite sinsert_perm. now constructor.
+Qed.
+
+Lemma sinsert_hd y x l : HdRel sle y l -> sle y x -> HdRel sle y (sinsert x l).
+Proof.
+  intros H1 H2. destruct l as [|z l]; simpl; [now constructor|].
+  destruct (str_ltb z x); constructor; auto. now inversion H1.
+Qed.
+
+Lemma sinsert_sorted x l : Sorted sle l -> Sorted sle (sinsert x l).
+Proof.
+  induction l as [|y l IH]; simpl; intro H; [repeat constructor|].
+  inversion H as [|? ? Hs Hh]; subst.
+  destruct (str_ltb y x) eqn:E.
+  - constructor; [now apply IH|]. apply sinsert_hd; auto. unfold sle. now apply str_ltb_asym.
+  - constructor; [exact H|]. constructor. exact E.
+Qed.
+
+Lemma ssort_sorted l : Sorted sle (ssort l).
+Proof. induction l as [|x l IH]; simpl; [constructor|now apply sinsert_sorted]. Qed.
+
+Lemma sorted_perm_unique l1 l2 :
+  Sorted sle l1 -> Sorted sle l2 -> Permutation l1 l2 -> l1 = l2.
+Proof.
+  revert l2. induction l1 as [|a l1 IH]; intros l2 S1 S2 P.
+  - apply Permutation_nil in P. now subst.
+  - destruct l2 as [|b0 l2]; [symmetry in P; now apply Permutation_nil in P|].
+    apply Sorted_StronglySorted in S1; [|intros ? ? ?; apply sle_trans].
+    apply Sorted_StronglySorted in S2; [|intros ? ? ?; apply sle_trans].
+    inversion S1 as [|? ? S1' F1]; subst. inversion S2 as [|? ? S2' F2]; subst.
+    assert (E : a = b0).
+    { apply sle_antisym.
+      - assert (I : In b0 (a :: l1)) by (eapply Permutation_in; [symmetry; exact P|now left]).
+        destruct I as [->|I]; [unfold sle; apply str_ltb_irrefl|].
+        rewrite Forall_forall in F1. now apply F1.
+      - assert (I : In a (b0 :: l2)) by (eapply Permutation_in; [exact P|now left]).
+        destruct I as [->|I]; [unfold sle; apply str_ltb_irrefl|].
+        rewrite Forall_forall in F2. now apply F2. }
+    subst b0. f_equal. apply IH.
+    + now apply StronglySorted_Sorted.
+    + now apply StronglySorted_Sorted.
+    + now apply Permutation_cons_inv in P.
+Qed.
+
+(* listTags: ascending, exactly the non-digest references greater than last, each as often
+   as the map holds it (once), whatever the iteration order of the map *)
+Theorem list_tags_spec entries last :
+  Sorted sle (list_tags entries last) /\
+  Permutation (list_tags entries last) (map fst (filter (tag_listed last) entries)) /\
+  (forall t, In t (list_tags entries last) <->
+             exists d, In (t, d) entries /\ t <> d /\ (last = [] \/ str_ltb last t = true)).
+Proof.
+  unfold list_tags. split; [apply ssort_sorted|]. split; [apply ssort_perm|].
+  intro t. split.
+  - intro H. apply (Permutation_in _ (ssort_perm _)) in H.
+    apply in_map_iff in H as ([t' d] & <- & H). apply filter_In in H as [Hi Hf].
+    exists d. split; [exact Hi|]. unfold tag_listed in Hf. simpl in *.
+    apply andb_true_iff in Hf as [F1 F2]. split.
+    + intro E. subst d. now rewrite str_eqb_refl in F1.
+    + apply orb_true_iff in F2 as [F2|F2]; [left; now destruct last|now right].
+  - intros (d & Hi & Hd & Hl). apply (Permutation_in _ (Permutation_sym (ssort_perm _))).
+    apply in_map_iff. exists (t, d). split; [reflexivity|]. apply filter_In. split; [exact Hi|].
+    unfold tag_listed. simpl. rewrite (str_eqb_neq t d Hd). simpl.
+    destruct Hl as [->|Hl]; [reflexivity|]. rewrite Hl. apply orb_true_r.
+Qed.
+
+Theorem list_tags_order_independent entries entries' last :
+  Permutation entries entries' -> list_tags entries last = list_tags entries' last.
+Proof.
+  intro P. apply sorted_perm_unique.
+  - apply (list_tags_spec entries last).
+  - apply (list_tags_spec entries' last).
+  - destruct (list_tags_spec entries last) as (_ & P1 & _).
+    destruct (list_tags_spec entries' last) as (_ & P2 & _).
+    rewrite P1, P2. apply Permutation_map.
+    clear P1 P2. induction P; simpl.
+    + constructor.
+    + destruct (tag_listed last x); [now constructor|assumption].
+    + destruct (tag_listed last x), (tag_listed last y); try reflexivity; try apply perm_swap.
+    + etransitivity; eauto.
+Qed.
+
+Lemma filter_all {A} (f : A -> bool) l : (forall x, In x l -> f x = true) -> filter f l = l.
+Proof.
+  induction l as [|x l IH]; simpl; intro H; [reflexivity|].
+  rewrite (H x) by now left. f_equal. apply IH. intros y Hy. apply H. now right.
+Qed.
+
+(* on a sorted registry the cursor semantics of the registry model is "greater than last",
+   the same reading of [last] as listTags *)
+Lemma after_sorted_unknown x L :
+  StronglySorted (fun a b0 => str_ltb (fst a) (fst b0) = true) L ->
+  x <> [] -> ~ In x (map fst L) ->
+  after x L = filter (fun it => str_ltb x (fst it)) L.
+Proof.
+  intros S Hx Hn. rewrite after_nonempty by exact Hx.
+  assert (E : after_pos x L = None).
+  { clear S. induction L as [|it L IH]; simpl; [reflexivity|].
+    rewrite str_eqb_neq; [|intro E; apply Hn; now left].
+    apply IH. intro H. apply Hn. now right. }
+  rewrite E. clear E Hn.
+  induction L as [|it L IH]; simpl; [reflexivity|].
+  inversion S as [|? ? S' F]; subst.
+  destruct (str_ltb x (fst it)) eqn:E.
+  - f_equal. symmetry. apply filter_all.
+    intros it' Hi. rewrite Forall_forall in F. apply (str_ltb_trans _ _ _ E). now apply F.
+  - now apply IH.
+Qed.
+
+(* ---------- summary lemmas used by Properties/C15.v ---------- *)
+
+Lemma handle_not_done c rs : handle c rs <> inl Done.
+Proof.
+  unfold handle.
+  destruct (negb (rs_status rs =? 200)); [discriminate|].
+  destruct (match c_kind c with KReferrers => negb (rs_ctype_ok rs) | _ => false end); [discriminate|].
+  destruct (negb (body_fits c rs)); [discriminate|].
+  destruct (c_kind c); try discriminate.
+  destruct (is_empty (c_at c)); try discriminate.
+  destruct (is_filter_applied (rs_fhdr rs) filterTypeArtifactType
+            || is_filter_applied (rs_fann rs) filterTypeArtifactType); discriminate.
+Qed.
+
+(* a listing that succeeds has decoded only documents that fit into the limit *)
+Lemma loop_done_all_fit serve resolve cb_fail c :
+  forall fuel i k u last,
+    let t := loop serve resolve cb_fail c fuel i k u last in
+    t_out t = Done ->
+    forall j rq, nth_error (t_reqs t) j = Some rq ->
+      rs_json_ok (serve (i + j)%nat rq) = true /\
+      (Z.of_N (rs_doc_len (serve (i + j)%nat rq)) <= eff_limit (c_limit c))%Z.
+Proof.
+  induction fuel as [|fuel IH]; intros i k u last; cbn [loop]; cbv zeta; [discriminate|].
+  set (rq0 := mk_request c u last).
+  destruct (handle c (serve i rq0)) as [e|page] eqn:H.
+  { cbn [t_out]. intros ->. exfalso. now apply (handle_not_done c (serve i rq0)). }
+  pose proof (handle_ok_fits c _ _ H) as Fit.
+  assert (Base : forall (t : trace) j rq, t_reqs t = [rq0] -> nth_error (t_reqs t) j = Some rq ->
+            rs_json_ok (serve (i + j)%nat rq) = true /\
+            (Z.of_N (rs_doc_len (serve (i + j)%nat rq)) <= eff_limit (c_limit c))%Z).
+  { intros t j rq E. rewrite E. destruct j as [|[|j]]; simpl; try discriminate.
+    intros [= <-]. now rewrite Nat.add_0_r. }
+  destruct (delivered c page && cb_fail k); [discriminate|].
+  destruct (parse_link (rs_link (serve i rq0))); try (intros _ j rq; now apply Base); try discriminate.
+  destruct (resolve rq0 t) as [u'|]; [|discriminate].
+  unfold prepend. cbn [t_out t_reqs]. intros O [|j] rq; simpl.
+  - intros [= <-]. now rewrite Nat.add_0_r.
+  - intro N. rewrite Nat.add_succ_r. apply (IH (S i) _ u' [] O j rq N).
+Qed.
+
+Lemma limit_spec :
+  (forall n, (n <= 0)%Z -> eff_limit n = defaultMaxMetadataBytes) /\
+  (forall n, (0 < n)%Z -> eff_limit n = n) /\
+  (forall limit total, (Z.of_N (max_read limit total) <= eff_limit limit)%Z /\ (max_read limit total <= total)%N) /\
+  (forall c rs p, handle c rs = inr p ->
+     rs_json_ok rs = true /\ (Z.of_N (rs_doc_len rs) <= eff_limit (c_limit c))%Z) /\
+  (forall c rs, (eff_limit (c_limit c) < Z.of_N (rs_doc_len rs))%Z -> exists e, handle c rs = inl e) /\
+  (forall serve resolve cb_fail c fuel i k u last,
+     let t := loop serve resolve cb_fail c fuel i k u last in
+     t_out t = Done ->
+     forall j rq, nth_error (t_reqs t) j = Some rq ->
+       rs_json_ok (serve (i + j)%nat rq) = true /\
+       (Z.of_N (rs_doc_len (serve (i + j)%nat rq)) <= eff_limit (c_limit c))%Z).
+Proof.
+  split; [exact eff_limit_default|]. split; [exact eff_limit_set|]. split; [exact max_read_le|].
+  split; [exact handle_ok_fits|]. split; [exact handle_oversize|]. exact loop_done_all_fit.
+Qed.
